@@ -6,6 +6,7 @@ import ClaripyProofs.Lemmas.VSA.ShiftSound
 import ClaripyProofs.Lemmas.VSA.Signed
 import ClaripyProofs.Lemmas.VSA.Extract
 import ClaripyProofs.Lemmas.VSA.SextSound
+import ClaripyProofs.Lemmas.VSA.AndXor
 /-!
 # C21 — strided-interval transfer functions are sound
 
@@ -166,6 +167,43 @@ example : (SI.new 4 3 13 3).WF ∧ (SI.new 4 1 1 2).WF ∧ (SI.new 4 3 13 3).mem
     (∃ r, (SI.new 4 3 13 3).lshift (SI.new 4 1 1 2) = .ok r ∧ r.mem 4) ∧
     (∃ r, (SI.new 4 3 13 3).udiv (SI.new 4 1 1 2) [0, 1] = .ok r ∧ r.mem 6) := by
   refine ⟨by decide, by decide, by decide, by decide, ⟨_, rfl, by decide⟩, ⟨_, rfl, by decide⟩, ⟨_, rfl, by decide⟩⟩
+
+/-! ## bitwise or / and / xor (Warren's `min_or`/`max_or` on the part above the common trailing zeros of the strides) -/
+
+/-- `bitwise_or` is sound and closed: wrapping, strided and unaligned operands included -/
+theorem C21_or_sound (a b r : SI) (ha : a.WF) (hb : b.WF) (hbits : a.bits = b.bits) (hab : a.bottom = false)
+    (hbb : b.bottom = false) (h : a.bitwiseOr b = .ok r) :
+    (r.WF ∧ r.bits = a.bits) ∧ ∀ x y, a.mem x → b.mem y → r.mem (Conc.or a.bits x y) :=
+  or_sound a b r ha hb hbits hab hbb h
+
+/-- Warren's bounds as the code computes them: `min_or ≤ x | y ≤ max_or` over the box `a ≤ x ≤ b`, `c ≤ y ≤ d` -/
+theorem C21_warren_bounds (a b c d w x y : Nat) (hax : a ≤ x) (hxb : x ≤ b) (hcy : c ≤ y) (hyd : y ≤ d)
+    (hb : b < 2 ^ w) (hd : d < 2 ^ w) : minOr a b c d w ≤ x ||| y ∧ x ||| y ≤ maxOr a b c d w :=
+  ⟨minOr_le a b c d w x y hax hxb hcy hyd hb hd, le_maxOr a b c d w x y hax hxb hcy hyd hb hd⟩
+
+/-- `bitwise_and` (sign-bit shortcut, then De Morgan through `bitwise_or`) is sound and closed; operands in the form the
+constructor returns (the shortcut splits at the north pole) -/
+theorem C21_and_sound (a b r : SI) (ha : a.WF) (hb : b.WF) (hbits : a.bits = b.bits) (hab : a.bottom = false)
+    (hbb : b.bottom = false) (hna : a.renorm = a) (hnb : b.renorm = b) (h : a.bitwiseAnd b = .ok r) :
+    (r.WF ∧ r.bits = a.bits) ∧ ∀ x y, a.mem x → b.mem y → r.mem (Conc.and a.bits x y) :=
+  let g := and_sound a b r ha hb hbits hab hbb hna hnb h
+  ⟨g.1.1, g.2⟩
+
+/-- `bitwise_xor` = `(x & ~y) | (~x & y)` through `bitwise_or`/`bitwise_not` is sound and closed -/
+theorem C21_xor_sound (a b r : SI) (ha : a.WF) (hb : b.WF) (hbits : a.bits = b.bits) (hab : a.bottom = false)
+    (hbb : b.bottom = false) (h : a.bitwiseXor b = .ok r) :
+    (r.WF ∧ r.bits = a.bits) ∧ ∀ x y, a.mem x → b.mem y → r.mem (Conc.xor a.bits x y) :=
+  let g := xor_sound a b r ha hb hbits hab hbb h
+  ⟨g.1.1, g.2⟩
+
+/-- non-vacuity: a wrapping operand with an odd stride against a strided one; the sign-bit shortcut of `and` -/
+example : (SI.new 4 3 13 3).WF ∧ (SI.new 4 2 1 7).WF ∧ (SI.new 4 3 13 3).mem 0 ∧ (SI.new 4 2 1 7).mem 5 ∧
+    (∃ r, (SI.new 4 3 13 3).bitwiseOr (SI.new 4 2 1 7) = .ok r ∧ r.mem 5 ∧ r.mem (3 ||| 7)) ∧
+    (∃ r, (SI.new 4 3 13 3).bitwiseAnd (SI.new 4 2 1 7) = .ok r ∧ r.mem (3 &&& 7)) ∧
+    (∃ r, (SI.new 4 3 13 3).bitwiseXor (SI.new 4 2 1 7) = .ok r ∧ r.mem (13 ^^^ 3)) ∧
+    (∃ r, (SI.new 4 0 8 8).bitwiseAnd (SI.new 4 3 13 3) = .ok r ∧ r.mem 8 ∧ r.mem 0) := by
+  refine ⟨by decide, by decide, by decide, by decide, ⟨_, rfl, by decide, by decide⟩, ⟨_, rfl, by decide⟩,
+    ⟨_, rfl, by decide⟩, ⟨_, rfl, by decide, by decide⟩⟩
 
 /-! ## sdiv — false on the code (floor instead of truncation), finding C21-sdiv-floor -/
 
